@@ -11,20 +11,21 @@ from .rules.graph import rule_keys, rule_order, rule_cover
 from .rules import misc as M
 from .rules.lazyrule import rule_lazy
 from .rules.pickle_nondet import rule_pickle, rule_nondet, rule_fillflow
+from .rules.wiring import rule_passthrough_sort, rule_passthrough_engine, rule_counter, rule_globalidx
 
 PROPERTIES = {
     "C01": {
-        "rules": [rule_dispatch, rule_stable],
+        "rules": [rule_dispatch, rule_stable, rule_passthrough_engine],
         "thorough": [selftest],
         "technique": "engine-dispatch model + sibling cross-check of kernel signatures (custom AST checker)",
         "level_text": "Static, all-paths: for every kernel name a blueprint can ask for and every engine, the implementation the dispatch "
                       "selects has the NaN discipline its name promises, reduces with the ufunc its name promises, replaces NaN by the "
                       "identity of that operator, numbagg names map to the same-named group_* kernels, fall-backs keep the name, and "
                       "the group sort feeding the flox engine is stable. Decides the wiring of the engines, not numerical equality.",
-        "explanation": "R-DISPATCH over (kernel, engine) resolutions and engine-module bindings; R-STABLE over argsort sites",
+        "explanation": "R-DISPATCH over (kernel, engine) resolutions and engine-module bindings; R-STABLE over argsort sites; R-PASSTHROUGH[engine]: every stage runs with the engine the user chose",
     },
     "C05": {
-        "rules": [rule_truthy, rule_fillflow, rule_parallel],
+        "rules": [rule_truthy, rule_fillflow, rule_parallel, rule_counter],
         "thorough": [selftest],
         "technique": "def-use fill-family + boolean-context scan; counter-wiring table check (custom AST checker)",
         "level_text": "Static, all-paths: no fill-value-typed expression (nor the optional min_count) is ever coerced to bool, so falsy "
@@ -85,7 +86,7 @@ PROPERTIES = {
         "explanation": "R-PLAN, R-ALGEBRA, R-COVER",
     },
     "C06": {
-        "rules": [rule_algebra, rule_order, rule_stable, rule_keys],
+        "rules": [rule_algebra, rule_order, rule_stable, rule_keys, rule_globalidx],
         "thorough": [selftest],
         "technique": "monoid-table arg rows; taint of block order through unordered containers; stable-sort sites; key injectivity",
         "level_text": "Static, all-paths: the four arg-reduction blueprints pair value/index kernels with matching polarity, NaN discipline, "
@@ -128,12 +129,13 @@ PROPERTIES = {
         "explanation": "R-DTYPETABLE, R-FINALCAST",
     },
     "C16": {
-        "rules": [M.rule_coindex],
+        "rules": [M.rule_coindex, rule_passthrough_sort],
         "thorough": [selftest],
         "technique": "syntactic co-indexing of values and labels in one basic block",
         "level_text": "Static: whenever groupby_reduce re-indexes the result along the group axis it re-indexes the labels with the same "
-                      "index in the same block, and vice versa. Which order results is not decided.",
-        "explanation": "R-COINDEX",
+                      "index in the same block, and vice versa; every stage that takes `sort` receives the caller's `sort` unchanged "
+                      "(scans pin it by design). Which order results is not decided.",
+        "explanation": "R-COINDEX, R-PASSTHROUGH[sort]",
     },
     "C18": {
         "rules": [M.rule_blockonly],
